@@ -163,7 +163,7 @@ Finish ==
            chunks == IF Tr[idx].pre = "none" THEN ProjBad(h, got.err = "none") ELSE {}
        IN  /\ Report(idx, <<result, {}, IF strict THEN single ELSE << >>, real>>,
                           <<got, chunks, IF strict THEN got.valid ELSE << >>, IF strict THEN got.valid ELSE << >> >>)
-           /\ evs = h \/ PrintT(<<"NOTE", idx, "hook sequence differs from Batch.tla at", FirstDiff(evs, h, 1)>>)
+           /\ FirstDiff(evs, h, 1) = 0 \/ PrintT(<<"NOTE", idx, "hook sequence differs from Batch.tla at", FirstDiff(evs, h, 1)>>)
     /\ pc' = "checked"
     /\ UNCHANGED <<entries, zip, entropyOk, num, offset, valid, ret, batchOk, chunk, evs, result, idx>>
 
